@@ -73,3 +73,8 @@ Fixpoint ser (v : prim) : res bytes :=
       do body <- ser_entries d;
       Ok (dict_open ++ body ++ dict_close ++ stream_open ++ data ++ stream_close)
   end.
+
+(* file.rs: write_revision — one changed object: `<id> <gen> obj` NL, the serialised value, the terminator; both literals are
+   regenerated from the source (sto_obj_header_fmt = the format string without its two `{}`, sto_obj_end) *)
+Definition obj_text (id gen : N) (body rest : bytes) : bytes :=
+  dec_of_N id ++ firstn 1 sto_obj_header_fmt ++ dec_of_N gen ++ skipn 1 sto_obj_header_fmt ++ body ++ sto_obj_end ++ rest.
